@@ -530,3 +530,122 @@ func runC01_20(c *core.Ctx) {
 	c.Check(good, f.Name, "every event dispatched", loop.Pos(), "callback invoked or chores flag set on every path through an iteration",
 		"an iteration of Polling's loop over the returned events can finish without invoking the callback (or setting the chores flag for the wake-up descriptor): the event is dropped – under edge-triggered registration the input it announced is never read and a hang-up never noticed")
 }
+
+func init() {
+	register(&core.Rule{ID: "C01.21", Prop: "C01", MinSites: 3,
+		Desc: "a registration dispatches to its own connection: every netpoll.PollAttachment built in package gnet carries as FD the descriptor of the object it belongs to (the constructor's fd parameter / ln.fd) and as Callback that object's dispatcher – c.processIO of the conn under construction for a stream, the loop's readUDP for a datagram socket, the handler handed in for a listener; under the poll_opt build (which the test suite does not compile) the callback stored here is the only way an event finds its connection",
+		Run:  runC01_21})
+	alias("C08", "C08.12", "C01.21", "a UDP socket's events are dispatched to readUDP of the loop that owns it")
+}
+
+func runC01_21(c *core.Ctx) {
+	v := vocabOf(c)
+	if v == nil {
+		return
+	}
+	attT, _ := c.P.Object("pkg/netpoll", "PollAttachment").(*types.TypeName)
+	processIO := c.P.Func("", "conn.processIO")
+	readUDP := c.P.Func("", "eventloop.readUDP")
+	lnFd := c.P.Field("", "listener", "fd")
+	if !c.Need("PollAttachment", attT) || !c.Need("conn.processIO", processIO) || !c.Need("eventloop.readUDP", readUDP) || !c.Need("listener.fd", lnFd) {
+		return
+	}
+	for _, f := range v.funcs {
+		if f.Decl.Body == nil {
+			continue
+		}
+		k := 0
+		ast.Inspect(f.Decl.Body, func(n ast.Node) bool {
+			cl, ok := n.(*ast.CompositeLit)
+			if !ok {
+				return true
+			}
+			tn, _ := f.Info.TypeOf(cl).(*types.Named)
+			if tn == nil || tn.Obj() != attT {
+				return true
+			}
+			k++
+			var fdE, cbE ast.Expr
+			for _, el := range cl.Elts {
+				if kv, ok := el.(*ast.KeyValueExpr); ok {
+					if id, ok := kv.Key.(*ast.Ident); ok {
+						switch id.Name {
+						case "FD":
+							fdE = kv.Value
+						case "Callback":
+							cbE = kv.Value
+						}
+					}
+				}
+			}
+			// the callback may be set right after the literal: c.pollAttachment.Callback = c.processIO
+			if cbE == nil {
+				ast.Inspect(f.Decl.Body, func(m ast.Node) bool {
+					if as, ok := m.(*ast.AssignStmt); ok && len(as.Lhs) == len(as.Rhs) {
+						for i, l := range as.Lhs {
+							if sel, ok := ast.Unparen(l).(*ast.SelectorExpr); ok && sel.Sel.Name == "Callback" && flow.FieldOf(f.Info, sel.X) == v.pollAtt {
+								cbE = as.Rhs[i]
+							}
+						}
+					}
+					return true
+				})
+			}
+			okFD := false
+			if fdE != nil {
+				fe := seeThrough(f, fdE)
+				if o, isVar := flow.ObjOf(f.Info, fe).(*types.Var); isVar && !o.IsField() {
+					// a parameter of the constructor that also initialises the object's own fd field
+					ast.Inspect(f.Decl.Body, func(m ast.Node) bool {
+						if kv, ok := m.(*ast.KeyValueExpr); ok {
+							if id, ok := kv.Key.(*ast.Ident); ok && f.Info.Uses[id] == types.Object(v.fdF) && flow.ObjOf(f.Info, kv.Value) == types.Object(o) {
+								okFD = true
+							}
+						}
+						return true
+					})
+				}
+				if flow.FieldOf(f.Info, fe) == lnFd {
+					if sel, ok := fe.(*ast.SelectorExpr); ok && flow.ObjOf(f.Info, sel.X) == types.Object(f.recvVar()) && f.recvVar() != nil {
+						okFD = true
+					}
+				}
+			}
+			okCB := false
+			if cbE != nil {
+				ce := seeThrough(f, cbE)
+				if sel, ok := ce.(*ast.SelectorExpr); ok {
+					switch f.Info.Uses[sel.Sel] {
+					case types.Object(processIO):
+						// of the conn under construction: the variable the literal's enclosing conn was assigned to
+						if o := flow.ObjOf(f.Info, sel.X); o != nil && v.isConnPtr(o.Type()) {
+							okCB = true
+						}
+					case types.Object(readUDP):
+						// of the loop the conn is constructed for
+						if o := flow.ObjOf(f.Info, sel.X); o != nil {
+							ast.Inspect(f.Decl.Body, func(m ast.Node) bool {
+								if kv, ok := m.(*ast.KeyValueExpr); ok {
+									if id, ok := kv.Key.(*ast.Ident); ok && f.Info.Uses[id] == types.Object(v.loopF) && flow.ObjOf(f.Info, kv.Value) == o {
+										okCB = true
+									}
+								}
+								return true
+							})
+						}
+					}
+				}
+				if o, isVar := flow.ObjOf(f.Info, ce).(*types.Var); isVar && !o.IsField() {
+					for i := 0; f.param(i) != nil; i++ {
+						if f.param(i) == o {
+							okCB = true // the handler the caller handed in (listener)
+						}
+					}
+				}
+			}
+			c.Check(okFD && okCB, f.Name, "poll attachment #"+itoa(k), cl.Pos(), "own descriptor, own dispatcher",
+				"the poll attachment built here does not carry the descriptor of the object it belongs to together with that object's dispatcher (c.processIO of the same conn / readUDP of its loop / the listener's handler): under the poll_opt build events of this descriptor are delivered to another connection's handler, or to none")
+			return true
+		})
+	}
+}
